@@ -195,6 +195,52 @@ def unit_lcd(unit):
     return _explore(body, unit)
 
 
+def unit_lcd_after_restore(unit):
+    """A restored LCD is a working LCD: after save/load (VRAM given by the unit: blank, or a fixed
+    pattern with blank pages in between) ONE data write with symbolic chip select, page, column and
+    value is applied to the original and to the restored controller through the real write path; both
+    VRAMs must then be equal cell by cell and the restored one must differ from its pre-write content in
+    exactly that one cell (no sharing between pages or chips introduced by the restore)."""
+    PE, RN = _setup()
+    fill = unit.get("fill", "blank")
+
+    def body(eng):
+        ses = _Session(PE)
+        try:
+            a = PE.PCE500Emulator(save_lcd_on_exit=False)
+            for ci, chip in enumerate(a.lcd.chips):
+                for p in range(len(chip.vram)):
+                    for c in range(len(chip.vram[p])):
+                        chip.vram[p][c] = 0 if fill == "blank" or p % 3 else (7 * c + 13 * p + ci + 1) & 0xFF
+            a.save_snapshot(ses.path)
+            b = PE.PCE500Emulator(save_lcd_on_exit=False)
+            b.load_snapshot(ses.path)
+            P = lambda n, c, d=None: eng.prove(n, core._b(c), detail=d)
+            rows = [row for chip in b.lcd.chips for row in chip.vram]
+            P("restore:lcd:rows-are-separate-objects", z3.BoolVal(len({id(r) for r in rows}) == len(rows)),
+              "no two VRAM pages of the restored controller are the same list object")
+            before = [[list(row) for row in chip.vram] for chip in b.lcd.chips]
+            ci = unit.get("chip", 0)
+            page, col, val = unit.get("page", 2), eng.fresh("col", 6), eng.fresh("val", 8)
+            for emu in (a, b):
+                chip = emu.lcd.chips[ci]
+                chip.state.page, chip.state.y_address = page, col
+                chip.write_data(val)
+            for cj, (ca, cb) in enumerate(zip(a.lcd.chips, b.lcd.chips)):
+                for p in range(len(ca.vram)):
+                    same = z3.And([T(x) == T(y) for x, y in zip(ca.vram[p], cb.vram[p])])
+                    P(f"after-restore:write:lcd{cj}:page{p}:same-as-original", same,
+                      "the same data write leaves the restored VRAM equal to the original's")
+                    if not (cj == ci and p == page):
+                        P(f"after-restore:write:lcd{cj}:page{p}:untouched", z3.And([T(x) == T(y) for x, y in zip(cb.vram[p], before[cj][p])]),
+                          "a data write changes one cell of one page of one chip")
+        finally:
+            ses.close()
+        return "roundtrip"
+
+    return _explore(body, unit)
+
+
 def unit_keyboard(unit):
     """Keyboard matrix: strobe registers, polarity, thresholds, queue (8 slots, head, tail), and the
     automaton state of one arbitrary key (unit parameter) with every field symbolic inside the
